@@ -277,3 +277,138 @@ theorem gr_mod_t_and_divide_q_last_ntt_inplace_eq (r : RNSTool) (tables : Array 
   show Except.ok _ = Except.ok _
   congr 1
   simp [List.range_eq_range', List.map_map, Function.comp_def]
+
+/-! ### `divide_and_round_q_last_ntt_inplace` -/
+
+def gr_NL (tables : Array NTTTables) (i : Nat) (x : List Nat) : List Nat := (nttLazy (tables.getD i gr_tdflt) x.toArray).toList
+
+/-- the transforms keep the length `2^k` of their table (no well-formedness needed) -/
+theorem gr_runFwdA_size (A : Arith Nat MulOperand) (k : Nat) (roots : Nat → MulOperand) (a : Array Nat) (h : a.size = 2^k) :
+    ∀ l, (runFwdA A k roots a l).size = 2^k := by
+  intro l; cases l with
+  | zero => exact h
+  | succ l => simp [runFwdA]
+theorem gr_runInvA_size (A : Arith Nat MulOperand) (k : Nat) (roots : Nat → MulOperand) (a : Array Nat) (h : a.size = 2^k) :
+    ∀ l, (runInvA A k roots a l).size = 2^k := by
+  intro l; cases l with
+  | zero => exact h
+  | succ l => simp [runInvA]
+theorem gr_nttLazy_size (t : NTTTables) (a : Array Nat) (h : a.size = 2^t.k) : (nttLazy t a).size = 2^t.k := by
+  unfold nttLazy transformToRev; exact gr_runFwdA_size _ _ _ _ h _
+theorem gr_ntt_size (t : NTTTables) (a : Array Nat) (h : a.size = 2^t.k) : (ntt t a).size = 2^t.k := by
+  unfold ntt; simp only [Array.size_map]; exact gr_nttLazy_size t a h
+theorem gr_intt_size (t : NTTTables) (a : Array Nat) (h : a.size = 2^t.k) : (intt t a).size = 2^t.k := by
+  unfold intt inttLazy transformFromRev; simp only [Array.size_map]; exact gr_runInvA_size _ _ _ _ h _
+
+theorem gr_zipM'_eq (a b : Array Nat) (f : Nat → Nat → R Nat) :
+    zipM' a b f = ((List.range' 0 a.size).mapM (fun j => f (a.toList.getD j 0) (b.toList.getD j 0)) >>= fun ys => .ok ys.toArray) := by
+  unfold zipM'
+  rw [gr_foldlM_push, List.range_eq_range']
+  simp only [gr_arr_getD]
+  cases (List.range' 0 a.size).mapM (fun j => f (a.toList.getD j 0) (b.toList.getD j 0)) with
+  | error e => rfl
+  | ok ys => rw [gr_ok_bind, gr_ok_bind]; simp
+
+theorem gr_mapM_map_ok {α β γ : Type} (F : α → R β) (g : β → γ) (l : List α) :
+    l.mapM (fun i => F i >>= fun c => .ok (g c)) = (l.mapM F >>= fun outs => .ok (outs.map g)) := by
+  induction l with
+  | nil => rfl
+  | cons a l ih =>
+    rw [gr_mapM_cons, gr_mapM_cons, ih]
+    cases F a with
+    | error e => rfl
+    | ok b =>
+      rw [gr_ok_bind, gr_ok_bind, gr_ok_bind]
+      cases l.mapM F with
+      | error e => rfl
+      | ok bs => rfl
+
+theorem gr_darn_model (r : RNSTool) (tables : Array NTTTables) (p : RnsPoly)
+    (hq : ∀ i, i < r.baseQ.size → (r.baseQ.q i).WF) (hs : 1 ≤ r.baseQ.size) :
+    r.divideAndRoundQLastNtt tables p =
+      ((intt (tables.getD (r.baseQ.size - 1) gr_tdflt) (p.getD (r.baseQ.size - 1) #[])).toList.mapM
+          (fun x => addMod x ((r.baseQ.q (r.baseQ.size - 1)).value / 2) (r.baseQ.q (r.baseQ.size - 1))) >>= fun lastc =>
+       (List.range' 0 (r.baseQ.size - 1)).mapM (fun i => gr_darnComp (r.baseQ.q i) (r.baseQ.q (r.baseQ.size - 1)) ((r.baseQ.q (r.baseQ.size - 1)).value / 2)
+          (r.invQLastModQ.getD i default) (gr_NL tables i) lastc (p.getD i #[]).toList) >>= fun outs =>
+       .ok ((outs.map List.toArray).toArray.push lastc.toArray)) := by
+  unfold RNSTool.divideAndRoundQLastNtt
+  dsimp only
+  rw [show RNSTool.divideAndRoundQLastNtt.dflt = gr_tdflt from rfl, gr_mapM'_eq]
+  generalize intt (tables.getD (r.baseQ.size - 1) gr_tdflt) (p.getD (r.baseQ.size - 1) #[]) = lastI
+  cases hm : lastI.toList.mapM (fun x => addMod x ((r.baseQ.q (r.baseQ.size - 1)).value / 2) (r.baseQ.q (r.baseQ.size - 1))) with
+  | error e => rfl
+  | ok lastc =>
+    have hlt : ∀ x ∈ lastc, x < 2^64 := gr_mapM_forall _ (fun z => z < 2^64) (fun x y h => gr_addMod_lt _ _ _ _ h) _ _ hm
+    have hh : (r.baseQ.q (r.baseQ.size - 1)).value / 2 < 2^64 := by have := (hq (r.baseQ.size - 1) (by omega)).lt; omega
+    simp only [gr_ok_bind]
+    refine Eq.trans (congrArg (fun m => m >>= _) (gr_mapM_congr _ (fun i => gr_darnComp (r.baseQ.q i) (r.baseQ.q (r.baseQ.size - 1)) ((r.baseQ.q (r.baseQ.size - 1)).value / 2)
+            (r.invQLastModQ.getD i default) (gr_NL tables i) lastc (p.getD i #[]).toList >>= fun c => .ok c.toArray) _ ?hb)) ?rest
+    case hb =>
+      intro i hi
+      rw [List.mem_range] at hi
+      have hb := hq i (by omega)
+      have hb0 : 0 < (r.baseQ.q i).value := by have := hb.two_le; omega
+      have e0 : (if (r.baseQ.q i).value < (r.baseQ.q (r.baseQ.size - 1)).value then mapM' lastc.toArray (fun x => barrett64 x (r.baseQ.q i)) else pure lastc.toArray)
+          = .ok (if (r.baseQ.q i).value < (r.baseQ.q (r.baseQ.size - 1)).value then lastc.map (fun x => x % (r.baseQ.q i).value) else lastc).toArray := by
+        split
+        · rw [mapM'_ok (g := fun x => x % (r.baseQ.q i).value) (fun x hx => barrett64_exact hb (hlt x (by simpa using hx)))]; simp
+        · rfl
+      rw [ite_bind_join, e0, ok_bind, barrett64_exact hb hh, ok_bind, gr_ckSub_ok (Nat.mod_lt _ hb0).le, ok_bind, gr_mapM'_eq]
+      unfold gr_darnComp
+      cases (if (r.baseQ.q i).value < (r.baseQ.q (r.baseQ.size - 1)).value then lastc.map (fun x => x % (r.baseQ.q i).value) else lastc).mapM
+          (fun x => ckAdd x ((r.baseQ.q i).value - (r.baseQ.q (r.baseQ.size - 1)).value / 2 % (r.baseQ.q i).value)) with
+      | error e => rfl
+      | ok temp1 =>
+        simp only [gr_ok_bind]
+        rw [gr_zipM'_eq]
+        unfold gr_NL
+        simp only [Array.length_toList]
+        cases (List.range' 0 (p.getD i #[]).size).mapM (fun j => ckSub ((r.baseQ.q i).value * 4) ((nttLazy (tables.getD i gr_tdflt) temp1.toArray).toList.getD j 0)
+            >>= fun z => ckAdd ((p.getD i #[]).toList.getD j 0) z) with
+        | error e => rfl
+        | ok d =>
+          simp only [gr_ok_bind]
+          rw [mapM'_ok (g := fun x => mulOpV x (r.invQLastModQ.getD i default) (r.baseQ.q i)) (fun x _ => gr_mulOperandMod _ _ _)]
+          simp
+    case rest =>
+      rw [List.range_eq_range', gr_mapM_map_ok]
+      cases (List.range' 0 (r.baseQ.size - 1)).mapM (fun i => gr_darnComp (r.baseQ.q i) (r.baseQ.q (r.baseQ.size - 1)) ((r.baseQ.q (r.baseQ.size - 1)).value / 2)
+          (r.invQLastModQ.getD i default) (gr_NL tables i) lastc (p.getD i #[]).toList) with
+      | error e => rfl
+      | ok outs => rfl
+
+/-- **`RNSTool::divide_and_round_q_last_ntt_inplace` (generated from src/util/rns.rs) = the hand model**; the two abstract function inputs of
+    the generated code (`inverse_ntt_negacyclic_harvey`, `ntt_negacyclic_harvey_lazy` of table `i`) are instantiated with the model's `intt` /
+    `nttLazy` of `tables[i]`.  About the tables only their size parameter is used (`2^k = n`); no range assumption on the coefficients: the
+    lazy additions / subtractions trap on both sides at the same point. -/
+theorem gr_divide_and_round_q_last_ntt_inplace_eq (r : RNSTool) (tables : Array NTTTables) (p : RnsPoly)
+    (hs : 1 ≤ r.baseQ.size) (hq : ∀ i, i < r.baseQ.size → (r.baseQ.q i).WF) (hinv : r.baseQ.size - 1 ≤ r.invQLastModQ.size)
+    (hsn : r.baseQ.size * r.n < 2^64) (hs64 : r.baseQ.size < 2^64) (hp : gr_Shape r p)
+    (hk : ∀ i, i < r.baseQ.size → 2^(tables.getD i gr_tdflt).k = r.n) :
+    GenR.divide_and_round_q_last_ntt_inplace (flatP p) r.baseQ.size r.baseQ.base.toList r.n r.invQLastModQ.toList
+        (fun i x => .ok (gr_IT tables i x)) (fun i x => .ok (gr_NL tables i x))
+      = (r.divideAndRoundQLastNtt tables p).map flatP := by
+  obtain ⟨hcs, hn⟩ := gr_shape_cs hp
+  have hlast : gr_IT tables (r.baseQ.size - 1) ((p.toList.map Array.toList).getD (r.baseQ.size - 1) [])
+      = (intt (tables.getD (r.baseQ.size - 1) gr_tdflt) (p.getD (r.baseQ.size - 1) #[])).toList := by
+    unfold gr_IT; rw [gr_cs_getD]
+  unfold flatP
+  rw [gr_darn_list r.baseQ.base.toList r.invQLastModQ.toList r.baseQ.size r.n (gr_IT tables) (gr_NL tables) _ hs (by simp [RNSBase.size])
+    (by simpa using hinv) (by intro i hi; rw [gr_q_toList]; exact hq i hi) hsn hs64 hcs hn
+    (by rw [hlast, Array.length_toList, gr_intt_size _ _ (by rw [hp.2 _ (by omega), hk _ (by omega)]), hk _ (by omega)])
+    (by intro i x hi hx; unfold gr_NL; rw [Array.length_toList, gr_nttLazy_size _ _ (by rw [List.size_toArray, hx, hk i (by omega)]), hk i (by omega)]),
+    gr_darn_model r tables p hq hs, hlast]
+  simp only [gr_q_toList, gr_cs_getD, gr_ops_toList]
+  cases (intt (tables.getD (r.baseQ.size - 1) gr_tdflt) (p.getD (r.baseQ.size - 1) #[])).toList.mapM
+          (fun x => addMod x ((r.baseQ.q (r.baseQ.size - 1)).value / 2) (r.baseQ.q (r.baseQ.size - 1))) with
+  | error e => rfl
+  | ok lastc =>
+    simp only [gr_ok_bind]
+    cases (List.range' 0 (r.baseQ.size - 1)).mapM (fun i => gr_darnComp (r.baseQ.q i) (r.baseQ.q (r.baseQ.size - 1)) ((r.baseQ.q (r.baseQ.size - 1)).value / 2)
+          (r.invQLastModQ.getD i default) (gr_NL tables i) lastc (p.getD i #[]).toList) with
+    | error e => rfl
+    | ok outs =>
+      simp only [gr_ok_bind]
+      show Except.ok _ = Except.ok _
+      congr 1
+      simp [List.map_map, Function.comp_def]
